@@ -330,11 +330,20 @@ def gen_history(rng, tier, focus=None):
     return h
 
 
+def reader_strict():
+    """shape of the readers as the translator read it from the current headers (lean/DSGen/Bloom.lean, bloom_READER_STRICT)"""
+    try:
+        return "def bloom_READER_STRICT : Bool := true" in open(os.path.join(core.LEAN, "DSGen", "Bloom.lean")).read()
+    except OSError:
+        return False
+
+
 def gen_malformed(rng):
     """separate malformed stream: one header field of a valid image corrupted / truncated, then deserialize / wrap.
     Combinations on which the real code would read past the buffer or divide by zero (C11's subject) are not generated:
     non-empty images shorter than 32 bytes, wraps of images shorter than their declared bit array, zero-length arrays."""
     h = ["univ u64 1 u64 2 str 6162"]
+    strict = reader_strict()     # validated readers: the formerly unsafe combinations are refusals now, so they are generated too
     m = 0
     v = 0
     dropped = 0
@@ -343,7 +352,7 @@ def gen_malformed(rng):
         bits = rng.getrandbits(cap) | 1
         empty = rng.random() < 0.3
         img = bytearray(make_image(k, seed, cap, bin(bits).count("1"), bits, empty))
-        mut = rng.choice(["pre", "ser", "fam", "flags", "k0", "longs+", "nbs", "trunc", "none", "dirty", "nbs0"])
+        mut = rng.choice(["pre", "ser", "fam", "flags", "k0", "longs+", "nbs", "trunc", "none", "dirty", "nbs0"] + (["longs0", "pre3"] if strict else []))
         wrap_ok = True
         if mut == "pre":
             img[0] = rng.choice([0, 1, 2, 5, 255] + ([4] if empty else []))
@@ -359,9 +368,13 @@ def gen_malformed(rng):
                 pass                      # becomes an "empty" image with trailing bytes: reader stops early
         elif mut == "k0":
             img[4] = 0; img[5] = 0
+        elif mut == "longs0":
+            struct.pack_into("<I", img, 16, 0)
+        elif mut == "pre3" and not empty:
+            img[0] = 3
         elif mut == "longs+" and not empty:
             struct.pack_into("<I", img, 16, cap // 64 + rng.choice([1, 2, 100]))
-            wrap_ok = False
+            wrap_ok = strict
         elif mut == "nbs" and not empty:
             struct.pack_into("<Q", img, 24, rng.choice([0, 1, cap, cap + 1, 2**63]))
         elif mut == "nbs0" and not empty:
@@ -373,10 +386,10 @@ def gen_malformed(rng):
                 img = img[:rng.choice([0, 1, 7, 8, 16, 23])]
             else:
                 img = img[:rng.choice([0, 7, 8, 23, 24, 31, 32, 33, len(img) - 8, len(img) - 1])]
-                wrap_ok = False
+                wrap_ok = strict
         nonempty_flag = len(img) > 3 and not (img[3] & 4)
-        if nonempty_flag and 8 <= len(img) < 32 and img[0] in (3, 4) and img[1] == 1 and img[2] == 21 and len(img) >= img[0] * 8:
-            continue                      # would read the count past the buffer (C11)
+        if not strict and nonempty_flag and 8 <= len(img) < 32 and img[0] in (3, 4) and img[1] == 1 and img[2] == 21 and len(img) >= img[0] * 8:
+            continue                      # pinned readers: would read the count past the buffer (C11)
         h.append("blk %d %s" % (m, bytes(img).hex() or "-"))
         ops = ["deser"] + (["wrap", "wwrap"] if wrap_ok else [])
         for op in rng.sample(ops, len(ops)):
@@ -903,8 +916,12 @@ CLAIM = dict(
     note=("Four genuine defects found by this check were repaired in /repo (fix: commits 4ed723a dirty marker not written through, 3f07d58 "
           "query_and_update on a dirty filter, e537a01 set operations through read-only wraps, 4a8ad39 uint16_t hash-loop counter; "
           "known_findings.json: fixed). The model executed against the code is the repaired variant (`bloomfixed`). "
-          "Not decided: 'false-positive rate stays near the target' (statistical). Not modelled: reader behaviour on truncated/corrupt "
-          "images that run past the buffer (C11), move construction/assignment and allocator behaviour (C19), filters of 2^32 bits and "
-          "more (32-bit num_longs arithmetic in the readers). Promises about caller memory assume single-writer discipline."),
+          "The shape of the readers (deserialize / wrap / writable_wrap) is read from the current headers by the translator "
+          "(bloom_READER_STRICT): pinned readers = inputs that run past the buffer or give a zero capacity are outside the modelled "
+          "domain and not generated (C11); validated readers = those inputs are refusals, modelled, generated and covered by "
+          "bloom_readers_current; any third shape is a translation failure. All theorems hold for both shapes. "
+          "Not decided: 'false-positive rate stays near the target' (statistical). Not modelled: move construction/assignment and "
+          "allocator behaviour (C19); the repaired-model theorems are for filters below 2^32 bits. Promises about caller memory "
+          "assume single-writer discipline."),
     technique="Lean 4 invariant proofs over operation histories with a memory store + differential correspondence (model vs real headers) + trace oracle",
     design="DESIGN.md §3 C15")
